@@ -61,6 +61,7 @@ type GopCache struct {
 	VideoSeqHeader                    []byte
 	AacSeqHeader                      []byte
 	videoSeqHeaderPayload             []byte // 最近一个video seq header的payload，用于判断seq header内容是否发生变化
+	aacSeqHeaderPayload               []byte // 最近一个aac seq header的payload，用于判断seq header内容是否发生变化
 
 	gopRing              []Gop
 	gopRingFirst         int
@@ -108,6 +109,12 @@ func (gc *GopCache) Feed(msg base.RtmpMsg, b []byte) bool {
 		return true
 	case base.RtmpTypeIdAudio:
 		if msg.IsAacSeqHeader() {
+			if gc.aacSeqHeaderPayload != nil && !bytes.Equal(gc.aacSeqHeaderPayload, msg.Payload) {
+				// 注意，和video seq header一样，内容发生变化时，之前缓存的gop中的音频帧无法用新的seq header解码，清空
+				gc.gopRingFirst = 0
+				gc.gopRingLast = 0
+			}
+			gc.aacSeqHeaderPayload = append(gc.aacSeqHeaderPayload[:0], msg.Payload...)
 			gc.AacSeqHeader = b
 			Log.Debugf("[%s] cache %s aac seq header. size:%d", gc.uniqueKey, gc.t, len(gc.AacSeqHeader))
 			return true
@@ -154,6 +161,7 @@ func (gc *GopCache) Clear() {
 	gc.VideoSeqHeader = nil
 	gc.AacSeqHeader = nil
 	gc.videoSeqHeaderPayload = nil
+	gc.aacSeqHeaderPayload = nil
 	gc.gopRingLast = 0
 	gc.gopRingFirst = 0
 }
